@@ -626,7 +626,7 @@ TemplatesPlain == {TplMulti, TplSelf, TplOtherTs, TplSame}
 TemplatesPlainBig == {TplMulti, TplSelf, TplOtherTs, TplSame, TplBlocked}
 TemplatesOneBig == {TplIn1, TplIn1b, TplOut1, TplPlainAsset, TplBadTs, TplNoDep}
 TemplatesAssets == {TplIn1, TplOut1, TplIn2, TplIn2b, TplPlainAsset}
-TemplatesOne == {TplIn1, TplOut1, TplPlainAsset}
+TemplatesOne == {TplIn1, TplIn1b, TplOut1, TplPlainAsset}
 TemplatesTwo == {TplIn2, TplIn2b, TplOut2}
 TemplatesGen == {TplMulti, TplSelf, TplOtherTs, TplSame, TplBlocked, TplIn1, TplIn1b, TplOut1,
                  TplIn2, TplIn2b, TplOut2, TplBadTs, TplNoDep, TplPlainAsset}
@@ -703,6 +703,10 @@ Act_C03_ClaimComplete == [][C03_ClaimComplete(st, ev')]_vars
 Act_C03_RejectionsInert == [][C03_RejectionsInert(st, ev', st')]_vars
 Act_C03_RefundAtExpiry == [][C03_RefundAtExpiry(st, ev', st')]_vars
 Act_C03_ExactlyOnce == [][C03_ExactlyOnce(st, ev', st', gh')]_vars
+(* ghost-dependent state clauses are checked as action properties: under the
+   VIEW (which drops the ghosts) TLC evaluates an invariant only on the first
+   path that reaches a state, an action property on every transition *)
+Act_C04_Current == [][C04_Current(st', gh')]_vars
 Act_C04_Limit == [][C04_Limit(st, st', gh')]_vars
 Act_C04_Window == [][C04_Window(st, ev', st')]_vars
 Act_C13_OnceOnTime == [][C13_OnceOnTime(st, ev', st', gh')]_vars
